@@ -14,8 +14,12 @@ GOENV = dict(os.environ, GOFLAGS="-mod=mod", GOPROXY="off", GOSUMDB="off", GOTOO
 
 
 def sh(cmd, cwd=None, env=None, timeout=None, stdin=None):
-    p = subprocess.run(cmd, cwd=cwd, env=env, timeout=timeout, stdin=stdin,
-                       stdout=subprocess.PIPE, stderr=subprocess.STDOUT, text=True, errors="replace")
+    try:
+        p = subprocess.run(cmd, cwd=cwd, env=env, timeout=timeout, stdin=stdin,
+                           stdout=subprocess.PIPE, stderr=subprocess.STDOUT, text=True, errors="replace")
+    except subprocess.TimeoutExpired as e:
+        out = e.stdout.decode(errors="replace") if isinstance(e.stdout, bytes) else (e.stdout or "")
+        return 124, out + f"\n[timed out after {timeout} s]"
     return p.returncode, p.stdout
 
 
@@ -162,9 +166,11 @@ def lean_obligations(ctx, modules):
 
 # ------------------------------------------------------------------ correspondence
 
-def run_harness(ctx, name, binary, args, timeout=3000, env=None):
+def run_harness(ctx, name, binary, args, timeout=None, env=None):
     """run a harness that writes ops.txt/exp.txt/meta.json into a fresh dir; pipe ops to the Lean
     driver; compare. Returns dict with counts; registers violations / broken obligations on ctx."""
+    if timeout is None:
+        timeout = 6000 if ctx.tier == "thorough" else 900   # a harness that hangs must not hang the check
     d = os.path.join(ctx.work, name)
     shutil.rmtree(d, ignore_errors=True)
     os.makedirs(d)
@@ -237,7 +243,7 @@ def _fail_keys(res, props, kinds=None):
     return keys
 
 
-def run_realtime(ctx, name, binary, args, props, attempts=3, kinds=None, timeout=3000):
+def run_realtime(ctx, name, binary, args, props, attempts=3, kinds=None, timeout=None):
     """a harness whose oracles compare against the wall clock: a failure counts only if the same kind of failure
     shows up in every one of `attempts` runs of the same seed (a defect in the code is there every time; a late
     goroutine on a loaded machine is not). What was discarded is written into the evidence notes."""
@@ -418,7 +424,8 @@ def main(argv):
     if a.replay:
         return props.replay(ctx, a.replay)
     rc = props.PROPS[a.prop](ctx)
-    if rc != 0 and getattr(ctx, "outcome", "") == "obligation-only" and a.tier == "quick" and not os.environ.get("VERIF_NO_ESCALATE"):
+    hung = any(n.startswith("harness run") and not ok for n, ok in ctx.obligations)
+    if rc != 0 and getattr(ctx, "outcome", "") == "obligation-only" and a.tier == "quick" and not hung and not os.environ.get("VERIF_NO_ESCALATE"):
         # an obligation or the correspondence broke but no input was found on which the property fails: search harder
         # (larger generators, three seeds) before reporting `no-failing-input-found`
         print(f"{a.prop}: an obligation no longer checks and the quick generators found no failing input; escalating the search")
